@@ -32,16 +32,45 @@ def crit(c):
 
 
 def dict_case(case):
-    from pycardano import Metadata, Withdrawals
+    """map-like classes of the property: built in the given insertion order, in reverse order with a delete / re-insert,
+    and through decode / encode"""
+    from pycardano import (Metadata, Withdrawals, RedeemerMap, RedeemerKey, RedeemerValue, RedeemerTag, ExecutionUnits,
+                           GovActionIdToVotingProcedure, GovActionId, VotingProcedure, Vote, VotingProcedures, Voter,
+                           VoterType, TransactionId, VerificationKeyHash, ScriptHash)
+    from pycardano.governance import TreasuryWithdrawal
     out = {}
-    if case['dict'] == 'metadata':
+    kind = case['dict']
+    if kind == 'metadata':
         d = Metadata()
         for k, v in case['entries']:
             d[k] = v
-    else:
+    elif kind == 'withdrawals':
         d = Withdrawals()
         for k, v in case['entries']:
             d[bytes.fromhex(k)] = v
+    elif kind == 'treasury':
+        d = TreasuryWithdrawal()
+        for k, v in case['entries']:
+            d[bytes.fromhex(k)] = v
+    elif kind == 'redeemers':
+        d = RedeemerMap()
+        for (tag, ix), (data, mem, steps) in case['entries']:
+            d[RedeemerKey(RedeemerTag(tag), ix)] = RedeemerValue(data, ExecutionUnits(mem, steps))
+    elif kind == 'votes':
+        d = GovActionIdToVotingProcedure()
+        for (txid, ix), vote in case['entries']:
+            d[GovActionId(TransactionId(bytes.fromhex(txid)), ix)] = VotingProcedure(Vote(vote), None)
+    elif kind == 'voters':
+        d = VotingProcedures()
+        for (code, h), vote in case['entries']:
+            cred = (VerificationKeyHash if code in (0, 2, 4) else ScriptHash)(bytes.fromhex(h))
+            vt = {0: VoterType.COMMITTEE_HOT, 1: VoterType.COMMITTEE_HOT, 2: VoterType.DREP, 3: VoterType.DREP,
+                  4: VoterType.STAKING_POOL}[code]
+            inner = GovActionIdToVotingProcedure()
+            inner[GovActionId(TransactionId(bytes(32)), 0)] = VotingProcedure(Vote(vote), None)
+            d[Voter(cred, vt)] = inner
+    else:
+        raise ValueError(kind)
     out['cbor'] = d.to_cbor().hex()
     # second history: build in reverse order, then delete and re-insert the first key
     d2 = type(d)()
